@@ -73,7 +73,9 @@ def _marker(num_sectors, typ):
 def build_hosted(states, slots, grain=8, ngte=512, capacity=None, window_at=0, total_grains=None, footer=False,
                  compressed=False, descriptor=None, stride=None, data_base=None, table_base=None, elide_empty_gt=True,
                  layer=1, gt_order="asc", gd_entries=None, nslots=None, label="kdmv", name=None, zero_flag=True, explicit=None,
-                 embedded_lba=True):
+                 embedded_lba=True, gd_at=None):
+    """gd_at: sector of the grain directory when it does not sit directly in front of the grain tables (its offset is a
+    64-bit field, the tables' sectors are 32-bit entries)."""
     W = len(states)
     total = total_grains or (window_at + W)
     if capacity is None:
@@ -98,6 +100,8 @@ def build_hosted(states, slots, grain=8, ngte=512, capacity=None, window_at=0, t
     if not footer:
         gd_sector = table_base if table_base is not None else pos
         gt0 = gd_sector + gd_sectors
+        if gd_at is not None:
+            gd_sector = gd_at
         tables_end = gt0 + len(used_tables) * gt_sectors
         d0 = data_base if data_base is not None else (tables_end + grain - 1) // grain * grain
     else:
